@@ -48,6 +48,13 @@ type sockConn struct {
 	echoSeen  int
 	dropped   bool
 	cmd       chan string
+	// ready: the client has answered a ping on this connection, i.e. its read loop runs, i.e. its
+	// after-connect callback has returned. Connections are cut only then: the firefly-common transport
+	// wedges for good when the socket fails while the callback is still sending (its Send has no
+	// receiver once the send loop has exited) - a defect outside pkg/rpcbackend that would hide everything else.
+	ready    atomic.Bool
+	exited   bool
+	notified map[string]int // tag -> notifications written
 }
 
 type sockServer struct {
@@ -86,6 +93,9 @@ func (s *sockServer) ServeHTTP(w http.ResponseWriter, r *http.Request) {
 	s.raw = append(s.raw, ws)
 	s.mu.Unlock()
 	defer ws.Close()
+	defer func() { s.mu.Lock(); rec.exited = true; s.mu.Unlock() }()
+	ws.SetPongHandler(func(string) error { rec.ready.Store(true); return nil })
+	_ = ws.WriteControl(websocket.PingMessage, []byte("verif"), time.Now().Add(10*time.Second))
 
 	frames := make(chan []byte)
 	go func() {
@@ -107,7 +117,11 @@ func (s *sockServer) ServeHTTP(w http.ResponseWriter, r *http.Request) {
 		type pair struct{ id, tok string }
 		var l []pair
 		for id, tok := range rec.idToken {
-			l = append(l, pair{id, tok})
+			if !strings.HasPrefix(tok, "churn") {
+				// subscriptions that are unsubscribed concurrently get no events: what happens when an
+				// Unsubscribe overtakes a notification inside the receive loop is deliberately not asserted
+				l = append(l, pair{id, tok})
+			}
 		}
 		s.mu.Unlock()
 		for _, p := range l {
@@ -115,7 +129,15 @@ func (s *sockServer) ServeHTTP(w http.ResponseWriter, r *http.Request) {
 			s.notifSeq++
 			k := s.notifSeq
 			s.mu.Unlock()
-			write(`{"jsonrpc":"2.0","method":"eth_subscription","params":{"subscription":%q,"result":{"conn":%d,"tok":%q,"k":%d,"tag":%q}}}`, p.id, rec.n, p.tok, k, tag)
+			ok := write(`{"jsonrpc":"2.0","method":"eth_subscription","params":{"subscription":%q,"result":{"conn":%d,"tok":%q,"k":%d,"tag":%q}}}`, p.id, rec.n, p.tok, k, tag)
+			if ok {
+				s.mu.Lock()
+				if rec.notified == nil {
+					rec.notified = map[string]int{}
+				}
+				rec.notified[tag]++
+				s.mu.Unlock()
+			}
 		}
 	}
 	flush := func() {
@@ -171,6 +193,9 @@ func (s *sockServer) ServeHTTP(w http.ResponseWriter, r *http.Request) {
 				rec.unsubs = append(rec.unsubs, tok)
 				s.mu.Unlock()
 				write(`{"jsonrpc":"2.0","id":%s,"result":true}`, req.ID)
+			case "verif_sync":
+				flush()
+				write(`{"jsonrpc":"2.0","id":%s,"result":{"conn":%d}}`, req.ID, rec.n)
 			case "verif_echo":
 				s.mu.Lock()
 				rec.echoSeen++
@@ -186,7 +211,7 @@ func (s *sockServer) ServeHTTP(w http.ResponseWriter, r *http.Request) {
 					}
 				}
 				s.mu.Unlock()
-				if dropAt > 0 && seen >= dropAt {
+				if dropAt > 0 && seen >= dropAt && rec.ready.Load() {
 					if mode == 1 {
 						held = append(held, req)
 						flush()
@@ -427,31 +452,33 @@ func runSock(c SockCase) (vs []evid.Violation, info sockInfo) {
 		}
 	}
 
-	// ---- phase 3: quiet again; find the surviving connection
-	synced := false
-	for attempt := 0; attempt < 2*len(c.DropAfter)+4 && !synced; attempt++ {
-		var res string
+	// ---- phase 3: quiet again; find the surviving connection (sync requests never trigger a cut)
+	finalN := -1
+	for attempt := 0; attempt < 2*len(c.DropAfter)+4 && finalN < 0; attempt++ {
+		var res struct {
+			Conn int `json:"conn"`
+		}
+		res.Conn = -1
 		var rpcErr *rpcbackend.RPCError
-		tok := fmt.Sprintf("sync-%d", attempt)
-		if !timed("CallRPC", func() { rpcErr = rc.CallRPC(ctx, &res, "verif_echo", tok) }) {
+		if !timed("CallRPC", func() { rpcErr = rc.CallRPC(ctx, &res, "verif_sync", fmt.Sprintf("sync-%d", attempt)) }) {
 			return vs, info
 		}
 		if rpcErr == nil {
-			if res != "res-"+tok {
-				fail("reply-pairing", "a call returned a result that is not the reply to its own request\ncall %s returned %q", tok, res)
-			}
-			synced = true
+			finalN = res.Conn
 		}
 	}
-	if !synced {
-		fail("liveness", "no call succeeded on a healthy connection after the last planned drop")
-		return vs, info
-	}
 	srv.mu.Lock()
-	final := srv.conns[len(srv.conns)-1]
 	nConns := len(srv.conns)
 	phase := srv.phase
+	var final *sockConn
+	if finalN >= 0 && finalN < nConns {
+		final = srv.conns[finalN]
+	}
 	srv.mu.Unlock()
+	if final == nil {
+		fail("liveness", "no call succeeded on a healthy connection after the last cut")
+		return vs, info
+	}
 	final.cmd <- "final"
 	for _, ss := range subs {
 		ss := ss
@@ -468,8 +495,10 @@ func runSock(c SockCase) (vs []evid.Violation, info sockInfo) {
 			}
 		}
 		if !ok {
+			p := dumpGoroutines("stuck")
 			srv.mu.Lock()
-			fail("notification-routing", "a subscription did not receive the notification sent to it on the surviving connection\n%s, connection %d (server ids there: %v, re-subscribe frames: %v)", ss.token, final.n, final.subIDs, final.subFrames)
+			fail("notification-routing", "a subscription did not receive the notification sent to it on the surviving connection\n%s, connection %d of %d (server ids there: %v, live ids: %v, re-subscribe frames: %v, unsubscribed: %v, notifications written: %v, handler exited: %v, cut: %v; received so far: %+v); goroutine dump: %s",
+				ss.token, final.n, len(srv.conns), final.subIDs, final.idToken, final.subFrames, final.unsubs, final.notified, final.exited, final.dropped, ss.snapshot(), p)
 			srv.mu.Unlock()
 		}
 	}
